@@ -13,12 +13,35 @@ from .sym import (Sc, Unsupported, to_z3, wrap, ite, band, bor, bnot, compare, a
 # heap cells
 # ---------------------------------------------------------------------------
 
+def memo_fn(fn):
+    """Memoise an element function (arrays are immutable values: cells are replaced on
+    write).  Keys are z3 term ids; the terms are kept alive by the cache entry."""
+    if getattr(fn, '_memo', False):
+        return fn
+    cache = {}
+
+    def g(idx):
+        try:
+            key = tuple(i.t.get_id() if isinstance(i, Sc) else i for i in idx)
+        except Exception:
+            return fn(idx)
+        hit = cache.get(key)
+        if hit is not None:
+            return hit[1]
+        v = fn(idx)
+        if len(cache) < 5000:
+            cache[key] = (idx, v)
+        return v
+    g._memo = True
+    return g
+
+
 class ArrCell(object):
     __slots__ = ('shape', 'fn', 'kind')
 
     def __init__(self, shape, fn, kind='real'):
         self.shape = tuple(shape)
-        self.fn = fn            # tuple of index scalars -> element scalar
+        self.fn = memo_fn(fn)   # tuple of index scalars -> element scalar
         self.kind = kind        # 'real' | 'int' | 'bool' | 'str' | 'obj'
 
 
@@ -101,7 +124,7 @@ class PureArr(object):
 
     def __init__(self, shape, fn, kind='real'):
         self.shape = tuple(shape)
-        self.fn = fn
+        self.fn = memo_fn(fn)
         self.kind = kind
 
 
@@ -113,7 +136,7 @@ class Masked(object):
 
     def __init__(self, shape, fn, kind, mrank, mask, mkey):
         self.shape = tuple(shape)   # full (uncompressed) shape
-        self.fn = fn
+        self.fn = memo_fn(fn)
         self.kind = kind
         self.mrank = mrank
         self.mask = mask            # idx[:mrank] -> bool scalar
@@ -176,7 +199,7 @@ def is_array(v):
 # input arrays as uninterpreted functions
 # ---------------------------------------------------------------------------
 
-_SORTS = {'real': z3.RealSort, 'int': z3.IntSort, 'bool': z3.BoolSort}
+_SORTS = {'real': z3.RealSort, 'int': z3.IntSort, 'nat': z3.IntSort, 'bool': z3.BoolSort}
 
 
 def uf_array(name, shape, kind='real', fresh=False):
